@@ -71,4 +71,29 @@ def firesFromActs (hooks : List (LifeCycle × String)) (events : List TaskState)
 /-- pushing an act appends one child -/
 def push {α : Type} (children : List α) (a : α) : List α := children ++ [a]
 
+/-! ## The review rule of a generating act (`Act::review`, hand transcription; the fixed skip-one-group scenarios of the C16 check run it on the engine) -/
+
+/-- what the review of a running act sees of one child -/
+inductive Child where
+  | opn       -- still open (running, interrupted, pending …)
+  | success   -- completed / submitted
+  | skipped
+  | error
+  deriving Repr, DecidableEq
+
+inductive Verdict where
+  | stay | completed | skipped | error
+  deriving Repr, DecidableEq
+
+/-- the loop of `Act::review` over the children in creation order: the first child in error fails the act, the first skipped child
+closes it as skipped **at once**, otherwise it completes when every child has succeeded -/
+def reviewRule : List Child → Verdict
+  | [] => .completed
+  | .error :: _ => .error
+  | .skipped :: _ => .skipped
+  | .success :: cs => reviewRule cs
+  | .opn :: cs => match reviewRule cs with
+      | .completed => .stay
+      | v => v
+
 end Acts.Generate
